@@ -336,6 +336,10 @@ func VerifyDualProofV2(proof *DualProofV2, sourceTxID, targetTxID uint64, source
 	}
 
 	if sourceTxID == targetTxID {
+		// a single transaction: both sides must be the very same state
+		if sourceAlh != targetAlh {
+			return ErrIllegalArguments
+		}
 		return nil
 	}
 
